@@ -662,3 +662,36 @@ Proof.
   - rewrite append_nil_r, cut_on_no_sep by exact HP. reflexivity.
   - rewrite cut_on_app_no_sep by exact HP. reflexivity.
 Qed.
+
+(** * sequences of requests through one rule instance *)
+
+(** what one rule instance forwards for a sequence of requests.  The model has no
+    state: what is forwarded for a request is a function of that request (and
+    what the pipeline handed over for it) and the rule alone — that the
+    IMPLEMENTATION keeps no state between requests either (a memoised rewrite, a
+    shared buffer) is what the session streams of the correspondence check *)
+Definition serve_all (fx : fixes) (r : rule) (reqs : list (request * pipeline)) : list outcome :=
+  map (fun x => serve fx (fst x) (snd x) r) reqs.
+
+Lemma history_independent fx r h1 h2 x :
+  nth_error (serve_all fx r (h1 ++ [x])) (length h1) = nth_error (serve_all fx r (h2 ++ [x])) (length h2).
+Proof.
+  unfold serve_all. rewrite !map_app. simpl.
+  rewrite !nth_error_app2 by (rewrite map_length; lia). rewrite !map_length, !Nat.sub_diag. reflexivity.
+Qed.
+
+(** every request of every sequence, whatever came before it, is forwarded as the statement says *)
+Theorem sequence_spec_holds fx r reqs n q pl :
+  fx_c08f2 fx = true -> fx_c13f3 fx = true -> fx_f1 fx = true -> fx_f4 fx = true ->
+  nth_error reqs n = Some (q, pl) ->
+  oracle_ok q = true ->
+  guard_F2 q = false -> guard_F3 q r = false -> guard_F5 r = false ->
+  fx_f6 fx = true \/ guard_F6 q r = false ->
+  fx_f7 fx = true \/ guard_F7 q = false ->
+  guard_F8 pl r = false ->
+  exists o, nth_error (serve_all fx r reqs) n = Some o /\ spec_ok q pl r o = true.
+Proof.
+  intros F08 F13 F1 F4 Hn Ho G2 G3 G5 G6 G7 G8. exists (serve fx q pl r). split.
+  - unfold serve_all. rewrite nth_error_map, Hn. reflexivity.
+  - apply spec_holds; assumption.
+Qed.
